@@ -227,6 +227,22 @@ def oracle(line, out):
     if any(cyclic(n, frozenset()) for n in cnames):
         must_reject = True
     dup_conts = len(set(cnames)) != len(cnames)
+    # *conflicting* duplicates: two SequenceContainer elements of one name that differ in what they contain (abstract flag,
+    # base container, entry list, restriction criteria) — differences in anything else are left to the model
+    def signature(c):
+        def elems_only(e):
+            return [uS(e[2]), sorted((uS(a), uS(v)) for a, v in e[3]), uS(e[4]) if e[4] != "-" else None,
+                    [elems_only(k) for k in e[5] if k[0] == "e"]]
+        ab = (_attr(c, "abstract") or "false").lower() == "true"
+        bases = [(_attr(b, "containerRef"), [elems_only(r) for r in _find(b, "RestrictionCriteria")]) for b in _find(c, "BaseContainer")]
+        ents = [[(uS(e[2]), _attr(e, "parameterRef") or _attr(e, "containerRef")) for e in el[5] if e[0] == "e"]
+                for el in _find(c, "EntryList")]
+        return repr((ab, bases, ents))
+    sigs = {}
+    for c in conts:
+        sigs.setdefault(_attr(c, "name"), set()).add(signature(c))
+    if any(len(v) > 1 for v in sigs.values()):
+        must_reject = True
     if must_reject:
         return out == "err"
     if dup_conts and not out.startswith("ok "):
